@@ -27,6 +27,18 @@ CHECKS = {
             TRUST + "The reference evaluator (vp/model/query.py, "
             "vp/model/compare.py) is the oracle; crashes are left to C15.",
             "6/C01"),
+    "C02": (True, "exploration",
+            "exhaustive small-scope enumeration + Hypothesis generation "
+            "against invariants over every result (coordinates, ancestry "
+            "chain, path round-trip) - a round-trip / invariant oracle",
+            "Every non-virtual result of ~2.4e6 queries (documents <= 3 "
+            "nodes whose keys carry each of the 13 escapable characters x "
+            "paths <= 2 segments incl. keyword searches; random anchored "
+            "documents beyond) must satisfy parent[parentref] is node, a "
+            "walkable ancestry chain from the root, and a reported path "
+            "that re-resolves to exactly that node in both notations, with "
+            "no path object mutated after it was handed out.",
+            TRUST, "6/C02"),
     "C15": (True, "exploration",
             "exhaustive small-scope enumeration + Hypothesis generation "
             "against an exception-type oracle with signature bucketing",
